@@ -1527,7 +1527,31 @@ impl Server {
             self.last_shutting_down_message = Some(now);
         }
 
-        if new_sessions_count <= self.base_sessions_count {
+        // Slots that never drain: the listeners' and the worker's own system
+        // sessions. They are counted from the slab itself: `base_sessions_count`
+        // drifts from it (RemoveListener lowers it without freeing the listen
+        // slot, DeactivateListener frees the slot without lowering it), which
+        // made a soft stop wait forever, or finish with a session still open.
+        let listen_slots = self
+            .sessions
+            .borrow()
+            .slab
+            .iter()
+            .filter(|(_, session)| {
+                matches!(
+                    session.borrow().protocol(),
+                    Protocol::HTTPListen
+                        | Protocol::HTTPSListen
+                        | Protocol::TCPListen
+                        | Protocol::UDPListen
+                        | Protocol::Channel
+                        | Protocol::Metrics
+                        | Protocol::Timer
+                )
+            })
+            .count();
+
+        if new_sessions_count <= listen_slots {
             info!("last session stopped, shutting down!");
             if let Err(e) = self.channel.run() {
                 error!("Error while running the server channel: {}", e);
@@ -1553,8 +1577,8 @@ impl Server {
         if new_sessions_count < self.last_sessions_len {
             info!(
                 "shutting down, {} slab elements remaining (base: {})",
-                new_sessions_count - self.base_sessions_count,
-                self.base_sessions_count
+                new_sessions_count.saturating_sub(listen_slots),
+                listen_slots
             );
             self.last_sessions_len = new_sessions_count;
         }
